@@ -281,6 +281,7 @@ class FakeSocket:
         self.inq = collections.deque()     # bytes | 'EOF' | Exception
         self.sent = bytearray()
         self.sent_log = []                 # per send() accepted sizes
+        self.recv_log = bytearray()        # every byte the stream pulled out of the socket
         self.send_script = collections.deque()  # int | 'EAGAIN' | Exception
         self.send_hook = None              # fn(sock, n) -> int | 'EAGAIN' | Exception
         self.blocked = False               # after EAGAIN until unblock()
@@ -339,6 +340,7 @@ class FakeSocket:
         n = n or len(buf)
         k = min(n, len(x))
         buf[:k] = x[:k]
+        self.recv_log += x[:k]
         if k == len(x):
             self.inq.popleft()
         else:
